@@ -179,7 +179,7 @@ def parse_vspec(path):
                 cur_contract["pin_body"] = rest
             elif d == "loop":
                 # `//@ loop N` invariants; `//@ loop N begin` / `//@ loop N end`: proof hints at the start / end of the loop body
-                mode = ("loop", cur_contract, args[0] + ("." + args[1] if len(args) > 1 and args[1] in ("begin", "end") else ""))
+                mode = ("loop", cur_contract, args[0] + ("." + args[1] if len(args) > 1 and args[1] in ("begin", "end", "after") else ""))
             elif d == "after":
                 # `//@ after N`: proof text after the N-th top-level statement of the function body
                 mode = ("loop", cur_contract, "s" + args[0])
